@@ -19,7 +19,9 @@ EXPLANATION = (
     "initialiser and inside the same loop nest as the call (so an unassigned k[i] is exactly 0 for every system); R3 k[]/kh[]/kc[] are "
     "assigned nowhere else in the templates; the rate functions paste ode.rateeqns/hrateeqns/crateeqns once, unfiltered; R4 KROME window "
     "tokens: every operator token is stripped before float(), d->e, the no-bound spellings keep the default -1, tmin/tmax feed temp_min/"
-    "temp_max respectively; UCLCHEM FREEZE forces the window (0, 30).")
+    "temp_max respectively; UCLCHEM FREEZE forces the window (0, 30) -- all parsers are read in their folded form (pymodel.folded: helpers put back, class-level "
+    "tables in place, table-driven setattr dispatch resolved); R5 the default duplicate search compares the reactions themselves (window included); "
+    "R6 every reaction of the list contributes its terms to the equations unconditionally (shared with C01.R2/R3).")
 ASSUMPTIONS = [
     "evaluation at boundary temperatures follows from the C operators >= and < once the guard text is as stated",
     "whether a database's `.LE.` should have been inclusive is not decided",
@@ -42,6 +44,7 @@ CALLER_TEMPLATES = [
 ]
 KROME = "naunet/reactions/kromereaction.py"
 UCL = "naunet/reactions/uclchemreaction.py"
+KEEP = ("_create_species",)        # helpers the rules treat as primitives when a parser is read in its folded form (pymodel.folded)
 
 
 def check(ctx):
@@ -49,16 +52,65 @@ def check(ctx):
     _r2(ctx)
     _r3(ctx)
     _r4(ctx)
-    # the pieces of a piecewise fit (same reactants and products, adjacent windows) are different reactions to the default
-    # duplicate search, which compares the reactions themselves -- window included -- not a coarser key (shared with C15.R3)
-    from .c15 import _r3 as dup_rule
-    ctx.absorb(lambda sub: dup_rule(sub, package(sub.tree)), "R5", only=lambda o: o.key in ("mode string/default", "check_list") or o.outcome == "VIOLATION" and o.key.startswith("mode"))
-    ctx.floor("R5", "default-mode comparison", len([o for o in ctx.obs if o.rule == "R5"]), 1)
+    _r5(ctx)
     # inside its window a reaction acts: the window lives in the guard of k[i] only; every reaction of the list contributes its
     # terms to the equations unconditionally (no reaction is dropped from the ODE by a test on its window) -- shared with C01.R2/R3
     from ..odemodel import model as odemodel
     from .c01 import reaction_sites
     reaction_sites(ctx, odemodel(ctx.tree), "R6", "R6")
+
+
+def _r5(ctx):
+    """The pieces of a piecewise fit (same reactants and products, adjacent windows) are different reactions to the default
+    duplicate search: in the default mode the objects compared are the reactions themselves -- window included -- not a coarser
+    key.  The compared list is found by ROLE: the sequence a loop of find_duplicate_reaction (helpers put back) walks, through
+    enumerate / tqdm, whose value is chosen by tests on the `mode` parameter; how the first-seen table is kept is C15's business."""
+    from .c15 import _mode_leaf
+    pkg = package(ctx.tree)
+    NF = "naunet/network.py"
+    pkg.method("Network", "find_duplicate_reaction")
+    fn = pkg.expanded("Network", "find_duplicate_reaction")
+    ctx.saw(NF, "Network.find_duplicate_reaction")
+    fl = Flow(fn, NF, resolver=lambda name: pkg.resolve("Network", name)[1])
+    from ..valueflow import strip_transparent
+    RL = ("attr", ("param", "self"), "reaction_list")
+    MODE = ("param", "mode")
+
+    def walked(it_):
+        it_ = strip_transparent(simp(it_))
+        if it_[0] == "call" and it_[1] == ("global", "enumerate") and it_[2]:
+            return walked(it_[2][0])
+        return it_
+
+    def by_mode(v):
+        return v[0] in ("phi", "ifexp") and any(x == MODE for x in walk(v[1]))
+    cands = []
+    for lp in fl.all_loops.values():
+        v = walked(lp.iter)
+        if by_mode(v) and v not in [c for c, _ in cands]:
+            cands.append((v, lp.line))
+    if not cands:
+        # the dispatch may sit in a helper that could not be put back: the lists handed to helpers of the class
+        for f in fl.facts:
+            if f.kind == "call" and f.value is not None and f.value[0] == "meth":
+                for a in f.value[3]:
+                    v = walked(a)
+                    if by_mode(v) and v not in [c for c, _ in cands]:
+                        cands.append((v, f.line))
+    W = (NF, fn.lineno)
+    if not cands:
+        ctx.unrec("R5", "default-mode comparison", W, "cannot find the per-mode list of compared objects (a sequence chosen by tests on `mode` that a loop walks)")
+    for v, line in cands:
+        leaves = {m: _mode_leaf(v, m) for m in ("none", "brief", "text")}
+        if leaves["none"] is None:
+            ctx.unrec("R5", "default-mode comparison", (NF, line), f"mode dispatch not recognised: {show(v)[:100]}")
+            continue
+        ok = leaves["none"] == RL
+        ctx.check(ok, "R5", "default-mode comparison", (NF, line),
+                  "the default mode compares the reactions themselves (temperature window included)" if ok else
+                  "the default mode does not compare the reactions themselves: reactions that differ only in their temperature window (the pieces of a "
+                  "piecewise fit) can be taken for duplicates", expected="check_list = self.reaction_list", found=show(leaves["none"])[:100])
+    ctx.floor("R5", "default-mode comparison", len([o for o in ctx.obs if o.rule == "R5"]), 1)
 
 
 def _r1(ctx):
@@ -191,8 +243,8 @@ def _r1(ctx):
         a parameter, an attribute, a builtin applied to those (reversed(..), sorted(..), x[1:]) is visible"""
         if b_[0] in ("param", "attr", "global", "sub", "list", "tuple"):
             return False
-        if b_[0] == "call" and b_[1][0] == "global" and hasattr(builtins, b_[1][1]):
-            return any(opaque(x) for x in b_[2])
+        if b_[0] == "call" and b_[1][0] == "global" and b_[1][1] in ("reversed", "sorted", "filter", "list", "tuple", "set", "frozenset", "enumerate", "zip", "iter"):
+            return any(opaque(x) for x in b_[2])          # a visible re-ordering / selection / copy of its arguments
         return True
     b = match(("call", ("global", "enumerate"), (V("z"),), ()), it)
     srcs = [x for a in seqs_of(b["z"]) for x in sources(a)] if b else []
@@ -271,6 +323,19 @@ def _r1(ctx):
     lo = ("cmp", ("Gt",), (("attr", r, "temp_min"), ("const", 0)))
     hi = ("cmp", ("Gt",), (("attr", r, "temp_max"), ("const", 0)))
     conds = {x for x in walk(elt) if isinstance(x, tuple) and x and x[0] == "cmp"}
+    def untraced(c):
+        """c is the presence test itself on a comprehension variable (or an element the rule could not compose to this position):
+        the right test, whose reaction was not traced -- not evidence of a wrong test"""
+        for x in walk(c):
+            if isinstance(x, tuple) and len(x) == 3 and (x[0] == "bv" or (x[0] == "elem" and x != r)):
+                if simp(subst(c, {x: r})) in (lo, hi):
+                    return True
+        return False
+    loose = [c for c in conds if c not in (lo, hi) and untraced(c)]
+    if loose:
+        ctx.unrec("R1", "_assign_rates:presence-tests", (FILE, rets[0].line), "cannot trace the condition(s) that shape the statement back to the reaction of the same position: "
+                  + ", ".join(sorted(show(c) for c in loose))[:160])
+        return
     ctx.check(conds == {lo, hi}, "R1", "_assign_rates:presence-tests", (FILE, rets[0].line),
               "a bound is present iff it is > 0 (temp_min > 0, temp_max > 0 of the same reaction); no other condition shapes the statement",
               expected="r.temp_min > 0, r.temp_max > 0", found=", ".join(sorted(show(c) for c in conds)))
@@ -289,6 +354,10 @@ def _r1(ctx):
         lw = lower(pe)
         key = f"_assign_rates:variant[{names[(has_lo, has_hi)]}]"
         m = re.match(want[(has_lo, has_hi)], lw.text)
+        if not m and (re.search(r"SEQ\d+_", lw.text) or "=" not in re.sub(r"[HS]E?Q?\d+_", "", lw.text)):
+            # the statement text could not be reconstructed (an opaque piece where the assignment should be): not a verdict on its shape
+            ctx.unrec("R1", key, (FILE, rets[0].line), f"cannot reconstruct the text of the generated statement: {lw.text[:100]!r}")
+            continue
         if not m:
             ctx.bad("R1", key, (FILE, rets[0].line), "generated statement has the wrong guard shape",
                     expected=want[(has_lo, has_hi)].replace("(?P<", "<").replace(r">H\d+_)", ">"), found=lw.text)
@@ -368,8 +437,24 @@ def _r2(ctx):
                     continue
                 d = before[-1]
                 init = d.group(2)
-                zero = init is not None and re.fullmatch(r"\s*0(\.0*)?f?\s*", init or "x") is not None
-                same_nest = _loops_enclosing(spans, d.start()) == _loops_enclosing(spans, m.start())
+                # `= {0.0}`, `= {0}`, `= {}` (C++ value-initialisation) all zero the whole array
+                zero = init is not None and re.fullmatch(r"\s*(0(\.0*)?f?)?\s*", init) is not None
+                zstart = d.start()
+                between = body[d.end():m.start()]
+                if not zero:
+                    # zeroed by a statement between the declaration and the call: memset / std::fill / std::fill_n / an element loop
+                    a_ = re.escape(arr)
+                    zs = list(re.finditer(r"\bmemset\s*\(\s*" + a_ + r"\s*,\s*0\s*,\s*sizeof\s*\(?\s*" + a_ + r"\s*\)?\s*\)\s*;"
+                                          r"|\b(?:std::)?fill\s*\(\s*" + a_ + r"\s*,\s*" + a_ + r"\s*\+\s*\w+\s*,\s*0(\.0*)?f?\s*\)\s*;"
+                                          r"|\b(?:std::)?fill_n\s*\(\s*" + a_ + r"\s*,\s*\w+\s*,\s*0(\.0*)?f?\s*\)\s*;"
+                                          r"|\bfor\s*\(\s*(?:int|size_t|unsigned)\s+(\w+)\s*=\s*0\s*;\s*\3\s*<\s*\w+\s*;\s*(?:\+\+\3|\3\+\+)\s*\)\s*\{?\s*" + a_ + r"\s*\[\s*\3\s*\]\s*=\s*0(\.0*)?f?\s*;", between))
+                    if zs:
+                        zero, zstart = True, d.end() + zs[-1].start()
+                    elif re.search(r"\b" + a_ + r"\b", between):
+                        ctx.unrec("R2", key, (rel, 0), f"`{arr}` has no zero initialiser and is handled between its declaration and the call in a way this rule cannot read: "
+                                  + re.sub(r"\s+", " ", between.strip())[:100])
+                        continue
+                same_nest = _loops_enclosing(spans, zstart) == _loops_enclosing(spans, m.start())
                 # storage duration: `static` / `thread_local` is initialised ONCE, not on every call
                 stmt_start = max(body.rfind(";", 0, d.start()), body.rfind("{", 0, d.start()), body.rfind("}", 0, d.start())) + 1
                 quals = set(re.findall(r"\b(static|thread_local|extern)\b", body[stmt_start:d.start()]))
@@ -398,28 +483,94 @@ def _mentions_ode(e):
     return False
 
 
+_WS_FILTERS = {"stmwrap", "indent", "trim", "wordwrap", "safe", "string"}               # change white space / nothing
+_LOSSY_FILTERS = {"reject", "select", "rejectattr", "selectattr", "unique", "sort", "reverse", "batch", "slice", "first", "last", "random",
+                  "replace", "truncate", "lower", "upper", "title", "capitalize", "default", "d", "striptags", "urlize", "abs", "round", "int", "float"}
+_ODE = ("name", "ode")
+_LOOPIDX = (("attr", ("name", "loop"), "index0"), ("bin", "-", ("attr", ("name", "loop"), "index"), ("const", 1)))
+
+
+def _paste(it):
+    """How one loop of a rate function prints a list of ode: ("ok" | "wrong" | "unknown", list expression | None, why).  The accepted
+    forms, by meaning: every entry of the list once, in order, changed by white-space filters only --
+    `for x in L: {{ x | stmwrap }}`, `for i in range(L | length): {{ L[i] | .. }}`, `for x in L: {{ L[loop.index0] }}` / `L[loop.index - 1]`."""
+    seq, fs = J.unfilter(it[2])
+    idxvar = None
+    b = match_range_len(it[2])
+    if b is not None:
+        seq, fs, idxvar = b, [], it[1]
+    if seq[0] == "item" and seq[2][0] == "slice":
+        return "wrong", seq[1], f"only the slice {J.show(seq[2])} of the list is pasted"
+    for f in fs:
+        if f[0] in _LOSSY_FILTERS:
+            return "wrong", seq, f"the list is passed through `{f[0]}` before it is pasted"
+        if f[0] != "list":
+            return "unknown", seq, f"the list is passed through the filter `{f[0]}`"
+    if it[7] is not None:
+        return "wrong", seq, f"entries are pasted only when `{J.show(it[7])}` holds"
+    if any(x[0] not in ("out", "text", "set") for x in it[3]):
+        return "unknown", seq, "the loop body holds control items"
+    outs = [x for x in it[3] if x[0] == "out" and not (x[1][0] == "const" and not str(x[1][1]).strip())]
+    if len(outs) != 1:
+        return "unknown", seq, f"the loop body prints {len(outs)} expressions"
+    base, ofs = J.unfilter(outs[0][1])
+    elem = {it[1]} if idxvar is None else set()
+    elem |= {("item", seq, idxvar)} if idxvar is not None else {("item", seq, i_) for i_ in _LOOPIDX}
+    if base not in elem:
+        return "unknown", seq, f"the loop prints `{J.show(outs[0][1])}`, not the entry itself"
+    for f in ofs:
+        if f[0] in _LOSSY_FILTERS:
+            return "wrong", seq, f"every entry is passed through `{f[0]}`, which can change the statement"
+        if f[0] not in _WS_FILTERS:
+            return "unknown", seq, f"every entry is passed through the filter `{f[0]}`"
+    return "ok", seq, ""
+
+
+def match_range_len(e):
+    """L when e is range(L | length) / range(0, L | length) / range(len-like call), else None"""
+    if e[0] == "call" and e[1] == ("name", "range") and not e[3] and 1 <= len(e[2]) <= 2 and (len(e[2]) == 1 or e[2][0] == ("const", 0)):
+        n_ = e[2][-1]
+        if n_[0] == "filter" and n_[1] in ("length", "count") and not n_[3] and not n_[4]:
+            return n_[2]
+    return None
+
+
 def _r3(ctx):
     # (a) the rate functions paste the statements once, unfiltered
     n = 0
     for label, rel, cfg in RATE_TEMPLATES:
         ctx.saw(rel)
-        items = J.flatten(ctx.tree, rel, cfg)
+        # {% set %} aliases and the parameters of expanded macros are replaced by the expressions they stand for
+        items = J.propagate_sets(J.flatten(ctx.tree, rel, cfg))
         sk = Skel(items)
         for fname, field in (("EvalRates", "rateeqns"), ("EvalHeatingRates", "hrateeqns"), ("EvalCoolingRates", "crateeqns")):
             key = f"{label}:{fname}:ode.{field}"
+            want = ("attr", _ODE, field)
             loops = [it for it, off in sk.items_in(fname) if it[0] == "for" and _mentions_ode(it[2])]
-            if len(loops) != 1:
-                (ctx.bad if loops else ctx.missing)("R3", key, (rel, 0), f"{fname} pastes {len(loops)} ode.* lists, expected exactly ode.{field}")
+            inside = {id(x) for lp_ in loops for x, _ in J.walk_items(lp_[3] + lp_[4])}
+            loose = [it for it, off in sk.items_in(fname) if it[0] == "out" and _mentions_ode(it[1]) and id(it) not in inside]
+            if not loops and not loose:
+                ctx.missing("R3", key, (rel, 0), f"{fname} pastes no ode.* list, expected exactly ode.{field}")
+                continue
+            n += 1
+            if loose or len(loops) != 1:
+                # pasted without a loop (`{{ L | map(..) | join }}`) or by several loops: each statement once, in order, is not decided here
+                if len(loops) > 1 and all(_paste(it)[0] == "ok" for it in loops):
+                    ctx.bad("R3", key, (rel, loops[1][5]), f"{fname} pastes {len(loops)} ode.* lists, expected exactly ode.{field}")
+                else:
+                    ctx.unrec("R3", key, (rel, (loose or loops)[0][2 if loose else 5]), f"cannot see that {fname} prints every entry of ode.{field} exactly once: "
+                              + "; ".join(J.show(x[1] if x[0] == "out" else x[2])[:60] for x in (loose + loops)))
                 continue
             it = loops[0]
-            outs = [x for x in it[3] if x[0] == "out" and x[1] != ("const", "")]
-            good = it[2] == ("attr", ("name", "ode"), field) and it[7] is None and len(outs) == 1
-            if good:
-                base, fs = J.unfilter(outs[0][1])
-                good = base == it[1] and all(f[0] == "stmwrap" for f in fs)
-            ctx.check(good, "R3", key, (rel, it[5]), f"{fname} outputs every entry of ode.{field} once, in order, through whitespace-only filters",
-                      expected=f"for assign in ode.{field}: {{{{ assign | stmwrap }}}}", found=J.show(it[2]) + " -> " + "; ".join(J.show(o[1]) for o in outs))
-            n += 1
+            verdict, seq, why = _paste(it)
+            found = J.show(it[2]) + " -> " + "; ".join(J.show(o[1]) for o in it[3] if o[0] == "out")
+            if verdict == "unknown":
+                ctx.unrec("R3", key, (rel, it[5]), f"cannot see that {fname} prints every entry of ode.{field} exactly once: {why}")
+            elif verdict == "wrong" or seq != want:
+                ctx.bad("R3", key, (rel, it[5]), f"{fname} does not output every entry of ode.{field} once, in order, unchanged: " + (why or f"the list pasted is {J.show(seq)}"),
+                        expected=f"for assign in ode.{field}: {{{{ assign | stmwrap }}}}", found=found)
+            else:
+                ctx.ok("R3", key, (rel, it[5]), f"{fname} outputs every entry of ode.{field} once, in order, through whitespace-only filters")
     ctx.floor("R3", "rate functions", n, 9)
     # (b) no other assignment to k / kh / kc in any back-end template
     hits = 0
@@ -539,7 +690,8 @@ def _windows_unconditional(ctx, pkg):
     """Every fixed-format parser stores float(<field>) into temp_min / temp_max -- no silent fallback to 'unbounded'."""
     from ..valueflow import Flow
     for cls in ("UMISTReaction", "KIDAReaction", "LEEDSReaction", "UCLCHEMReaction", "Reaction"):
-        fn = pkg.method(cls, "_parse_string")
+        pkg.method(cls, "_parse_string")
+        fn = pkg.folded(cls, "_parse_string", keep=KEEP)
         file = pkg.cls(cls).file
         fl = Flow(fn, file)
         for attr in ("temp_min", "temp_max"):
@@ -551,6 +703,8 @@ def _windows_unconditional(ctx, pkg):
                     ctx.bad("R4", f"{cls}:{attr} stored", (file, fn.lineno), f"{cls}._parse_string never stores {attr}")
                 continue
             v = simp(st[-1].value)
+            if v[0] == "unop" and v[1] in ("USub", "UAdd") and v[2][0] == "const" and isinstance(v[2][1], (int, float)):
+                v = ("const", -v[2][1] if v[1] == "USub" else v[2][1])        # a signed literal is a constant
             inner = v[2][0] if v[0] == "call" and v[1] == ("global", "float") and len(v[2]) == 1 and not v[3] else None
             while inner is not None and inner[0] == "meth" and inner[2] == "strip" and not inner[3]:
                 inner = inner[1]          # float() ignores surrounding blanks anyway
@@ -567,50 +721,6 @@ def _windows_unconditional(ctx, pkg):
                 ctx.unrec("R4", key, (file, st[-1].line), f"cannot see that self.{attr} is float(<field of the record>): {show(v)[:100]}")
 
 
-def class_constants_inlined(pkg, cls: str, fn):
-    """Copy of method `fn` of class `cls` in which every read of a class-level constant -- an attribute of the class (or a base)
-    bound once, in the class body, to a literal tuple / list / set / frozenset of constants, never assigned or mutated anywhere in
-    the package -- through self / cls / the class name is replaced by that literal; static loops over such constants are then
-    unrolled like loops over a literal written in place."""
-    import copy
-    from ..normalize import normalize_function
-    mro = pkg.mro(cls)
-    touched = set()
-    for mod in pkg.modules.values():
-        for n in ast.walk(mod):
-            if isinstance(n, ast.Attribute) and isinstance(n.ctx, (ast.Store, ast.Del)):
-                touched.add(n.attr)
-            elif isinstance(n, ast.Call) and isinstance(n.func, ast.Attribute) and isinstance(n.func.value, ast.Attribute) \
-                    and n.func.attr in ("append", "extend", "insert", "remove", "pop", "clear", "sort", "reverse", "add", "discard", "update"):
-                touched.add(n.func.value.attr)
-            elif isinstance(n, ast.Call) and isinstance(n.func, ast.Name) and n.func.id == "setattr":
-                touched.add("*")
-
-    def const_of(name):
-        if name in touched or "*" in touched:
-            return None
-        _, node = pkg.resolve_attr(cls, name)
-        if node is None:
-            return None
-        if isinstance(node, ast.Call) and isinstance(node.func, ast.Name) and node.func.id in ("tuple", "list", "frozenset", "set") and len(node.args) == 1 and not node.keywords:
-            node = node.args[0]
-        if isinstance(node, (ast.Tuple, ast.List, ast.Set)) and all(isinstance(e, ast.Constant) for e in node.elts):
-            return ast.Tuple(elts=[copy.deepcopy(e) for e in node.elts], ctx=ast.Load()) if not isinstance(node, ast.List) else copy.deepcopy(node)
-        return None
-
-    class P(ast.NodeTransformer):
-        def visit_Attribute(self, n):
-            self.generic_visit(n)
-            if isinstance(n.ctx, ast.Load) and isinstance(n.value, ast.Name) and (n.value.id in ("self", "cls") or n.value.id in mro):
-                c = const_of(n.attr)
-                if c is not None:
-                    return ast.copy_location(c, n)
-            return n
-    new = P().visit(copy.deepcopy(fn))
-    ast.fix_missing_locations(new)
-    return normalize_function(new)
-
-
 def _replace_chain(x):
     """x = base.replace(a1, b1)....replace(an, bn)  ->  (base, [(a, b), ...]); strip() links are looked through"""
     reps = []
@@ -629,10 +739,12 @@ def _krome_window_stores(ctx, pkg, fn):
     from ..valueflow import guards_satisfiable, strip_transparent
     kcls = pkg.cls("KROMEReaction")
 
+    # the parser in its folded form: extracted helpers put back, class-level token tables written in place, static loops over them
+    # (for / functools.reduce) unrolled, `key in TABLE` + setattr(self, TABLE[key], ..) spelled as the chain of plain stores
     def res(name):
         _, f = pkg.resolve("KROMEReaction", name)
-        return class_constants_inlined(pkg, "KROMEReaction", f) if f is not None and name.startswith("_") and not name.startswith("__") else None
-    fl = Flow(class_constants_inlined(pkg, "KROMEReaction", fn), KROME, resolver=res)
+        return pkg.folded("KROMEReaction", name, keep=KEEP) if f is not None and name.startswith("_") and not name.startswith("__") and name not in KEEP else None
+    fl = Flow(pkg.folded("KROMEReaction", "_parse_string", keep=KEEP), KROME, resolver=res)
     want_ops = {"<", ">", ".LE.", ".GE.", ".LT.", ".GT."}
     want_none = {"N", "NONE", "N/A", "NO", ""}
     stores = [f for f in fl.facts if f.kind == "attrstore" and f.target in ("temp_min", "temp_max") and f.extra.get("obj") == ("param", "self")]
@@ -645,194 +757,42 @@ def _krome_window_stores(ctx, pkg, fn):
         which = "tmin" if f.target == "temp_min" else "tmax"
         other = "tmax" if which == "tmin" else "tmin"
         W = (KROME, f.line)
-        # -- the column loop: for <keyword>, <field> in zip(<format keywords>, <fields of the line>)
-        lp = f.loops[-1] if f.loops else None
-        it = simp(lp.iter) if lp is not None else None
-        key = val = None
-        if it is not None and it[0] == "call" and it[1] == ("global", "zip") and len(it[2]) == 2 and not it[3]:
-            for a in it[2]:
-                a0 = strip_transparent(a)
-                if any(x == ("param", "react_string") for x in walk(a0)) and not any(isinstance(x, tuple) and x[:2] == ("attr", SELFP) for x in walk(a0)):
-                    val = ("elem", a0, lp.id)
-                elif any(isinstance(x, tuple) and len(x) == 3 and x[0] == "attr" and x[1] == SELFP and "format" in x[2] for x in walk(a0)):
-                    key = ("elem", a0, lp.id)
-        if key is None or val is None:
-            ctx.unrec("R4", f"KROME:{which}:column loop", W, "the store is not inside `for keyword, field in zip(<format keywords>, <fields of the line>)`")
-            continue
-        # -- guards: membership in a literal is the disjunction of equalities; `helper(..) is None` of a helper returning None on one arm only is that arm's condition
-        def lit_set(x):
-            return [e[1] for e in x[1]] if x[0] in ("list", "tuple", "set") and all(e[0] == "const" for e in x[1]) else None
-
-        def rewrite(c):
-            c = simp(c)
-            if c[0] == "cmp" and len(c[1]) == 1 and c[1][0] == "In" and c[2][0] == key and lit_set(c[2][1]) is not None:
-                alts = tuple(("cmp", ("Eq",), (key, ("const", k_))) for k_ in lit_set(c[2][1]))
-                return alts[0] if len(alts) == 1 else ("bool", "Or", alts)
-            if c[0] == "cmp" and len(c[1]) == 1 and c[1][0] in ("Is", "Eq") and c[2][1] == ("const", None) and c[2][0][0] == "phi":
-                ph = c[2][0]
-                if ph[2] == ("const", None) and ph[3][0] == "call":
-                    return rewrite(ph[1])
-                if ph[3] == ("const", None) and ph[2][0] == "call":
-                    return ("unop", "Not", rewrite(ph[1]))
-            if c[0] == "bool":
-                return ("bool", c[1], tuple(rewrite(x) for x in c[2]))
-            if c[0] == "unop" and c[1] == "Not":
-                return ("unop", "Not", rewrite(c[2]))
-            return c
-        from ..valueflow import split_guard
-        G = [g2 for c, pol in f.guards for g2 in split_guard((rewrite(c), pol))]
-        keyatoms = sorted({x for c, _ in G for x in walk(c) if isinstance(x, tuple) and len(x) == 3 and x[0] == "cmp" and x[1] == ("Eq",) and x[2][0] == key and x[2][1][0] == "const"}, key=repr)
-        excl = [(("bool", "And", (a, b)), False) for i, a in enumerate(keyatoms) for b in keyatoms[i + 1:]]
-        KG = [(c, pol) for c, pol in G if any(x in keyatoms for x in walk(c))]
-        is_ = lambda k_: ("cmp", ("Eq",), (key, ("const", k_)))
-        implies = lambda k_: not guards_satisfiable(KG + excl, [(is_(k_), False)])
-        kk = f"KROME:{which}:target"
-        if implies(which):
-            ctx.ok("R4", kk, W, f"self.{f.target} is stored only where the column keyword is {which!r}")
-        elif implies(other):
-            ctx.bad("R4", kk, W, f"the {other} field feeds self.{f.target}: the window guard is built from the wrong limit", expected=f"keyword == {which!r}", found=f"keyword == {other!r}")
-            continue
-        else:
-            ctx.unrec("R4", kk, W, f"cannot decide from the guards of the store which column feeds self.{f.target}: " + "; ".join(f"{show(c)[:60]}={pol}" for c, pol in KG)[:200])
-            continue
-        # -- the stored value on this path
-        assume = {c: pol for c, pol in G}
-        v = simp(peval(simp(f.value), assume))
-        if not (v[0] == "call" and v[1] == ("global", "float") and len(v[2]) == 1 and not v[3]):
+        # -- the column pairing, by role: the KEYWORD is what the guards of the store compare with "tmin" / "tmax"; the FIELD is the element
+        #    of the split line at the same position -- `for keyword, field in zip(keywords, fields)`, `keywords[i]` / `fields[i]`,
+        #    `for i, keyword in enumerate(keywords): fields[i]`
+        def pos_of(x):
+            """(sequence, position token) of an element of a sequence"""
+            x = simp(x)
+            if x[0] == "elem" and len(x) == 3:
+                return strip_transparent(simp(x[1])), ("loop", x[2])
+            if x[0] == "sub" and x[2][0] != "slice":
+                i_ = x[2]
+                return strip_transparent(simp(x[1])), (("loop", i_[2]) if i_[0] in ("idx", "elem") and len(i_) == 3 else i_)
             return None
-        base, reps = _replace_chain(v[2][0])
-        if base != val:
-            if any(isinstance(x, tuple) and x and x[0] in ("carried", "after", "acc", "unknown") for x in walk(base)) or not reps:
-                return None
-            ctx.bad("R4", f"KROME:{which}:field", W, f"self.{f.target} is decoded from {show(base)[:80]}, not from the field paired with the keyword {which!r}", found=show(base)[:100])
+        key = None
+        for g_, _ in f.guards:
+            for x in walk(simp(g_)):
+                if isinstance(x, tuple) and len(x) == 3 and x[0] == "cmp" and len(x[1]) == 1 and x[1][0] in ("Eq", "In") and len(x[2]) == 2:
+                    lits = [x[2][1][1]] if x[2][1][0] == "const" else [e[1] for e in x[2][1][1]] if x[2][1][0] in ("list", "tuple", "set") and all(e[0] == "const" for e in x[2][1][1]) else []
+                    if ("tmin" in lits or "tmax" in lits) and key is None:
+                        key = x[2][0]
+        kp = pos_of(key) if key is not None else None
+        if kp is None or not any(isinstance(x, tuple) and len(x) == 3 and x[0] == "attr" and x[1] == SELFP and "format" in x[2] for x in walk(kp[0])):
+            ctx.unrec("R4", f"KROME:{which}:column loop", W, "cannot find the format keyword the store is guarded by (an element of the format's keyword list compared with 'tmin' / 'tmax')")
             continue
-        decided += 1
-        seen.add(which)
-        ops = {a for a, b in reps if b == ""}
-        ctx.check(want_ops <= ops, "R4", f"KROME:{which}:operator tokens", W,
-                  "every comparison token of the KROME syntax is stripped before float()", expected=str(sorted(want_ops)), found=str(sorted(ops)))
-        ctx.check(any(a in ("d", "D") and b in ("e", "E") for a, b in reps), "R4", f"KROME:{which}:d-exponent", W, "Fortran d-exponents are converted before float()",
-                  found=str([r_ for r_ in reps if r_[1] != ""]))
-        # -- no-bound spellings: the path excludes <field>.upper() in {N, NONE, N/A, NO, ""}
-        nones, seen_test, other_tests = set(), False, []
-        for c, pol in G:
-            if c[0] == "cmp" and len(c[1]) == 1 and c[1][0] == "In" and lit_set(c[2][1]) is not None and not pol:
-                left, _ = _replace_chain(c[2][0])
-                if left == ("meth", val, "upper", (), ()) or (left[0] == "meth" and left[2] == "upper" and _replace_chain(left[1])[0] == val):
-                    nones |= set(lit_set(c[2][1]))
-                    seen_test = True
-                    continue
-            if c[0] == "cmp" and c[1] == ("Eq",) and c[2][0] == val and c[2][1] == ("const", "") and not pol:
-                nones.add("")
-                continue
-            if any(x == val for x in walk(c)) and not any(x in keyatoms for x in walk(c)):
-                other_tests.append(c)
-        kk = f"KROME:{which}:no-bound spellings"
-        if want_none <= nones:
-            ctx.ok("R4", kk, W, "N / NONE / N/A / NO / empty keep the default (unbounded)")
-        elif seen_test or not other_tests:
-            ctx.bad("R4", kk, W, "N / NONE / N/A / NO / empty must keep the default (unbounded): a spelling that is not excluded reaches float()", expected=str(sorted(want_none)), found=str(sorted(nones)))
-        else:
-            ctx.unrec("R4", kk, W, "the no-bound spellings are tested in a way this rule cannot decide: " + "; ".join(show(c)[:60] for c in other_tests)[:160])
-    if decided:
-        for which in ("tmin", "tmax"):
-            if which not in seen and not any(o.rule == "R4" and o.key.startswith(f"KROME:{which}:") for o in ctx.obs):
-                ctx.bad("R4", f"KROME:{which}:target", (KROME, fn.lineno), f"the {which} column is never stored into self.temp_{which[1:]}")
-    return decided
-
-
-def class_constants_inlined(pkg, cls: str, fn):
-    """Copy of method `fn` of class `cls` in which every read of a class-level constant -- an attribute of the class (or a base)
-    bound once, in the class body, to a literal tuple / list / set / frozenset of constants, never assigned or mutated anywhere in
-    the package -- through self / cls / the class name is replaced by that literal; static loops over such constants are then
-    unrolled like loops over a literal written in place."""
-    import copy
-    from ..normalize import normalize_function
-    mro = pkg.mro(cls)
-    touched = set()
-    for mod in pkg.modules.values():
-        for n in ast.walk(mod):
-            if isinstance(n, ast.Attribute) and isinstance(n.ctx, (ast.Store, ast.Del)):
-                touched.add(n.attr)
-            elif isinstance(n, ast.Call) and isinstance(n.func, ast.Attribute) and isinstance(n.func.value, ast.Attribute) \
-                    and n.func.attr in ("append", "extend", "insert", "remove", "pop", "clear", "sort", "reverse", "add", "discard", "update"):
-                touched.add(n.func.value.attr)
-            elif isinstance(n, ast.Call) and isinstance(n.func, ast.Name) and n.func.id == "setattr":
-                touched.add("*")
-
-    def const_of(name):
-        if name in touched or "*" in touched:
-            return None
-        _, node = pkg.resolve_attr(cls, name)
-        if node is None:
-            return None
-        if isinstance(node, ast.Call) and isinstance(node.func, ast.Name) and node.func.id in ("tuple", "list", "frozenset", "set") and len(node.args) == 1 and not node.keywords:
-            node = node.args[0]
-        if isinstance(node, (ast.Tuple, ast.List, ast.Set)) and all(isinstance(e, ast.Constant) for e in node.elts):
-            return ast.Tuple(elts=[copy.deepcopy(e) for e in node.elts], ctx=ast.Load()) if not isinstance(node, ast.List) else copy.deepcopy(node)
-        return None
-
-    class P(ast.NodeTransformer):
-        def visit_Attribute(self, n):
-            self.generic_visit(n)
-            if isinstance(n.ctx, ast.Load) and isinstance(n.value, ast.Name) and (n.value.id in ("self", "cls") or n.value.id in mro):
-                c = const_of(n.attr)
-                if c is not None:
-                    return ast.copy_location(c, n)
-            return n
-    new = P().visit(copy.deepcopy(fn))
-    ast.fix_missing_locations(new)
-    return normalize_function(new)
-
-
-def _replace_chain(x):
-    """x = base.replace(a1, b1)....replace(an, bn)  ->  (base, [(a, b), ...]); strip() links are looked through"""
-    reps = []
-    while x[0] == "meth" and ((x[2] == "replace" and len(x[3]) == 2 and not x[4] and all(a[0] == "const" and isinstance(a[1], str) for a in x[3])) or (x[2] == "strip" and not x[3])):
-        if x[2] == "replace":
-            reps.append((x[3][0][1], x[3][1][1]))
-        x = x[1]
-    return x, reps
-
-
-def _krome_window_stores(ctx, pkg, fn):
-    """The KROME window columns, decided on the reconstructed values (valueflow) -- independent of how the column chain is spelled:
-    every store into self.temp_min / self.temp_max happens on a path that implies the column keyword is tmin / tmax respectively, the
-    stored value is float(<the field of the same column>) after every comparison token was replaced by "" and d by e, and the path
-    excludes the no-bound spellings.  -> number of stores decided, or None when the stores are not in a form this rule understands."""
-    from ..valueflow import guards_satisfiable, strip_transparent
-    kcls = pkg.cls("KROMEReaction")
-
-    def res(name):
-        _, f = pkg.resolve("KROMEReaction", name)
-        return class_constants_inlined(pkg, "KROMEReaction", f) if f is not None and name.startswith("_") and not name.startswith("__") else None
-    fl = Flow(class_constants_inlined(pkg, "KROMEReaction", fn), KROME, resolver=res)
-    want_ops = {"<", ">", ".LE.", ".GE.", ".LT.", ".GT."}
-    want_none = {"N", "NONE", "N/A", "NO", ""}
-    stores = [f for f in fl.facts if f.kind == "attrstore" and f.target in ("temp_min", "temp_max") and f.extra.get("obj") == ("param", "self")]
-    if not stores:
-        return None
-    SELFP = ("param", "self")
-    decided = 0
-    seen = set()
-    for f in stores:
-        which = "tmin" if f.target == "temp_min" else "tmax"
-        other = "tmax" if which == "tmin" else "tmin"
-        W = (KROME, f.line)
-        # -- the column loop: for <keyword>, <field> in zip(<format keywords>, <fields of the line>)
-        lp = f.loops[-1] if f.loops else None
-        it = simp(lp.iter) if lp is not None else None
-        key = val = None
-        if it is not None and it[0] == "call" and it[1] == ("global", "zip") and len(it[2]) == 2 and not it[3]:
-            for a in it[2]:
-                a0 = strip_transparent(a)
-                if any(x == ("param", "react_string") for x in walk(a0)) and not any(isinstance(x, tuple) and x[:2] == ("attr", SELFP) for x in walk(a0)):
-                    val = ("elem", a0, lp.id)
-                elif any(isinstance(x, tuple) and len(x) == 3 and x[0] == "attr" and x[1] == SELFP and "format" in x[2] for x in walk(a0)):
-                    key = ("elem", a0, lp.id)
-        if key is None or val is None:
-            ctx.unrec("R4", f"KROME:{which}:column loop", W, "the store is not inside `for keyword, field in zip(<format keywords>, <fields of the line>)`")
+        # the field at the keyword's position: the one element of a sequence cut from the line that the stored value / the guards read
+        cands = {x for src in [f.value] + [g_ for g_, _ in f.guards] for x in walk(simp(src)) if isinstance(x, tuple) and x and x[0] in ("elem", "sub") and pos_of(x) is not None
+                 and any(y == ("param", "react_string") for y in walk(pos_of(x)[0])) and not any(isinstance(y, tuple) and y[:2] == ("attr", SELFP) for y in walk(pos_of(x)[0]))
+                 and any(isinstance(y, tuple) and len(y) == 5 and y[0] == "meth" and y[2] == "split" for y in walk(pos_of(x)[0]))}
+        paired = [x for x in cands if pos_of(x)[1] == kp[1]]
+        if len(paired) != 1:
+            if cands and not paired:
+                ctx.bad("R4", f"KROME:{which}:field", W, f"self.{f.target} is decoded from {show(sorted(cands, key=repr)[0])[:80]}, which is not the field at the position of the keyword {which!r}",
+                        found=show(sorted(cands, key=repr)[0])[:100])
+            else:
+                ctx.unrec("R4", f"KROME:{which}:column loop", W, "cannot pair the format keyword with one field of the line (expected zip(<keywords>, <fields>) or the same index into both)")
             continue
+        val = paired[0]
         # -- guards: membership in a literal is the disjunction of equalities; `helper(..) is None` of a helper returning None on one arm only is that arm's condition
         def lit_set(x):
             return [e[1] for e in x[1]] if x[0] in ("list", "tuple", "set") and all(e[0] == "const" for e in x[1]) else None
@@ -937,21 +897,50 @@ def _r4(ctx):
             v = None
         ctx.check(v is not None and v <= 0, "R4", f"Reaction.__init__:{a} default", ("naunet/reactions/reaction.py", init.lineno),
                   "a reaction without window carries a non-positive bound (= unbounded)", found=repr(v))
-    # UCLCHEM freeze window
-    ufn = pkg.method("UCLCHEMReaction", "_parse_string")
+    _uclchem_freeze(ctx, pkg)
+
+
+def _uclchem_freeze(ctx, pkg):
+    """UCLCHEM freeze-out reactions act below 30 K only: on the paths where the reaction type is UCLCHEM_FR the stored window is
+    (0, 30), whatever the arrangement (the fields overwritten before float(), a conditional expression, an if/else around the
+    stores).  Decided by partial evaluation of the stored values under `reaction_type == UCLCHEM_FR`."""
+    pkg.method("UCLCHEMReaction", "_parse_string")
+    ufn = pkg.folded("UCLCHEMReaction", "_parse_string", keep=KEEP)
     ctx.saw(UCL, "UCLCHEMReaction._parse_string")
-    from ..valueflow import Flow
     ufl = Flow(ufn, UCL)
-    got = {}
-    for f in ufl.facts:
-        if f.kind == "attrstore" and f.target in ("temp_min", "temp_max"):
-            v = simp(f.value)
-            if v[0] == "call" and v[1] == ("global", "float") and len(v[2]) == 1 and v[2][0][0] == "phi":
-                c, a, b = v[2][0][1:4]
-                if c[0] == "cmp" and c[1] == ("Eq",) and show(c[2][0]).endswith("reaction_type") and show(c[2][1]).endswith("UCLCHEM_FR") and a[0] == "const" and b[0] == "item":
-                    got[f.target] = a[1]
-    ok = got == {"temp_min": 0, "temp_max": 30}
-    ctx.check(ok, "R4", "UCLCHEM:FREEZE window", (UCL, ufn.lineno), "freeze-out reactions get the window (0, 30) before the bounds are stored")
+    W = (UCL, ufn.lineno)
+
+    def is_fr(c):
+        if not (isinstance(c, tuple) and len(c) == 3 and c[0] == "cmp" and c[1] in (("Eq",), ("Is",)) and len(c[2]) == 2):
+            return False
+        l, r = show(c[2][0]), show(c[2][1])
+        return (l.endswith("reaction_type") and r.endswith("UCLCHEM_FR")) or (r.endswith("reaction_type") and l.endswith("UCLCHEM_FR"))
+    stores = [f for f in ufl.facts if f.kind == "attrstore" and f.target in ("temp_min", "temp_max") and f.extra.get("obj") == ("param", "self")]
+    atoms = set()
+    for f in stores:
+        atoms |= {x for x in walk(simp(f.value)) if is_fr(x)}
+        atoms |= {x for g, _ in f.guards for x in walk(simp(g)) if is_fr(x)}
+    got, unread = {}, []
+    for attr in ("temp_min", "temp_max"):
+        live = [f for f in stores if f.target == attr and not any(is_fr(simp(g)) and not pol for g, pol in f.guards)]      # paths compatible with FR
+        if not live:
+            unread.append(f"no store into self.{attr} on the freeze-out path")
+            continue
+        v = simp(peval(simp(live[-1].value), {a: True for a in atoms}))
+        if v[0] == "call" and v[1] == ("global", "float") and len(v[2]) == 1 and not v[3]:
+            v = v[2][0]
+        if v[0] == "const" and isinstance(v[1], (int, float)) and not isinstance(v[1], bool):
+            got[attr] = v[1]
+        else:
+            unread.append(f"self.{attr} = {show(v)[:60]}")
+    if not atoms and stores and all(simp(f.value)[0] == "call" and simp(f.value)[1] == ("global", "float") for f in stores):
+        ctx.bad("R4", "UCLCHEM:FREEZE window", W, "no store of the temperature window depends on the reaction type being UCLCHEM_FR: freeze-out reactions keep the window of the file "
+                                                  "instead of (0, 30)", expected="lt, ut = 0, 30 for UCLCHEM_FR", found="; ".join(show(simp(f.value))[:40] for f in stores))
+    elif unread or not atoms:
+        ctx.unrec("R4", "UCLCHEM:FREEZE window", W, "cannot read the window stored for freeze-out reactions: " + ("; ".join(unread) or "no test of the reaction type"))
+    else:
+        ok = got == {"temp_min": 0, "temp_max": 30}
+        ctx.check(ok, "R4", "UCLCHEM:FREEZE window", W, "freeze-out reactions get the window (0, 30) before the bounds are stored", expected="(0, 30)", found=str((got.get("temp_min"), got.get("temp_max"))))
 
 
 T = FILE
@@ -1056,4 +1045,133 @@ MUTANTS += [
         {"file": T, "old": "    def _assign_rates(\n", "new": '    @staticmethod\n    def _share(exprs, symbol):\n        first = {}\n        shared = []\n        for idx, expr in enumerate(exprs):\n'
                                                              '            ref = first.setdefault(expr, idx)\n            shared.append(f"{symbol}[{ref}]" if ref != idx else expr)\n        return shared\n\n    def _assign_rates(\n'},
         {"file": T, "old": _RA, "new": "        rateexprs = self._share(rateexprs, rate_sym)\n" + _RA}], "rules": ["R1"]},
+]
+# ---- wave 2: table-driven spellings (class-level key -> attribute tables, setattr, functools.reduce), helper pipelines
+_K_TABLE_CLS = ('    _limit_attributes = {"tmin": "temp_min", "tmax": "temp_max"}\n    _no_limit = ("N", "NONE", "N/A", "NO", "")\n'
+                '    _limit_operators = ("<", ">", ".LE.", ".GE.", ".LT.", ".GT.")\n\n' + _K_CLS)
+
+
+def _k_table_arm(table="self._limit_attributes", ops="self._limit_operators", convert='value = value.replace("d", "e")\n', pick="key"):
+    return ('                elif key in ' + table + ':\n                    if value.upper() in self._no_limit:\n                        continue\n'
+            '                    value = reduce(lambda text, opstr: text.replace(opstr, ""), ' + ops + ', value)\n'
+            '                    ' + convert +
+            '                    setattr(self, ' + table + '[' + pick + '], float(value))\n')
+
+
+def _k_table(cls=_K_TABLE_CLS, **kw):
+    return [{"file": KROME, "old": "import re\n", "new": "import re\nfrom functools import reduce\n"}, {"file": KROME, "old": _K_CLS, "new": cls}, {"file": KROME, "old": _K_ARMS_OLD, "new": _k_table_arm(**kw)}]
+
+
+_U_FREEZE_OLD = ('            if self.reaction_type == self.ReactionType.UCLCHEM_FR:\n                lt, ut = 0, 30\n\n            self.alpha = float(a)\n            self.beta = float(b)\n'
+                 '            self.gamma = float(c)\n            self.temp_min = float(lt)\n            self.temp_max = float(ut)\n')
+
+
+def _u_freeze(lo, hi):
+    return ('            self.alpha = float(a)\n            self.beta = float(b)\n            self.gamma = float(c)\n'
+            '            if self.reaction_type == self.ReactionType.UCLCHEM_FR:\n                self.temp_min, self.temp_max = ' + lo + ', ' + hi + '\n'
+            '            else:\n                self.temp_min = float(lt)\n                self.temp_max = float(ut)\n')
+
+
+_U_NATIVE_OLD = ('        self.alpha = float(a)\n        self.beta = float(b)\n        self.gamma = float(c)\n        self.temp_min = float(lt)\n        self.temp_max = float(ut)\n')
+MUTANTS += [
+    {"name": "krome-table-dispatch-swapped", "edits": _k_table(cls=_K_TABLE_CLS.replace('{"tmin": "temp_min", "tmax": "temp_max"}', '{"tmin": "temp_max", "tmax": "temp_min"}')), "rules": ["R4"]},
+    {"name": "krome-table-dispatch-operators-lack-.LT.", "edits": _k_table(cls=_K_TABLE_CLS.replace('".LT.", ', '')), "rules": ["R4"]},
+    {"name": "krome-table-dispatch-no-d-exponent", "edits": _k_table(convert='value = value.strip()\n'), "rules": ["R4"]},
+    {"name": "uclchem-freeze-stores-in-arms-wrong-upper", "file": UCL, "old": _U_FREEZE_OLD, "new": _u_freeze("0.0", "300.0"), "rules": ["R4"]},
+    {"name": "uclchem-freeze-dropped", "file": UCL, "old": "            if self.reaction_type == self.ReactionType.UCLCHEM_FR:\n                lt, ut = 0, 30\n", "new": "", "rules": ["R4"]},
+    {"name": "native-window-zip-setattr-crossed", "file": "naunet/reactions/reaction.py", "old": _U_NATIVE_OLD,
+     "new": '        for attrname, text in zip(("alpha", "beta", "gamma", "temp_max", "temp_min"), (a, b, c, lt, ut)):\n            setattr(self, attrname, float(text) if attrname != "temp_min" else -1.0)\n', "rules": ["R4"]},
+]
+BENIGN += [
+    {"name": "krome-window-table-dispatch-setattr-reduce", "edits": _k_table()},
+    {"name": "uclchem-freeze-stores-in-arms", "file": UCL, "old": _U_FREEZE_OLD, "new": _u_freeze("0.0", "30.0")},
+    {"name": "native-window-zip-setattr", "file": "naunet/reactions/reaction.py", "old": _U_NATIVE_OLD,
+     "new": '        for attrname, text in zip(("alpha", "beta", "gamma", "temp_min", "temp_max"), (a, b, c, lt, ut)):\n            setattr(self, attrname, float(text))\n'},
+]
+# ---- wave 2: template spellings of the paste loop and of the zeroing of k
+_J_LOOP = '    {% for assign in ode.rateeqns -%}\n        {{ assign | stmwrap(80, 8) }}\n        {{ "" }}\n    {% endfor %}\n'
+_FEX_K = "    realtype k[NREACTIONS] = {0.0};\n    EvalRates(k, y, u_data);"
+_KERNEL_K = "        realtype k[NREACTIONS] = {0.0};\n        EvalRates(k, y_cur, udata);"
+MUTANTS += [
+    {"name": "paste-loop-list-through-unique", "file": RATES, "old": "{% for assign in ode.rateeqns -%}", "new": "{% for assign in ode.rateeqns | unique -%}", "rules": ["R3"]},
+    {"name": "paste-loop-by-index-other-list", "file": RATES, "old": _J_LOOP, "new": '    {% for i in range(ode.hrateeqns | length) -%}\n        {{ ode.hrateeqns[i] | stmwrap(80, 8) }}\n        {{ "" }}\n    {% endfor %}\n', "rules": ["R3"]},
+    {"name": "paste-loop-conditional", "file": RATES, "old": "{% for assign in ode.rateeqns -%}", "new": '{% for assign in ode.rateeqns if "if (" not in assign -%}', "rules": ["R3"]},
+    {"name": "kernel-k-memset-hoisted", "edits": [
+        {"file": FEX, "old": _KERNEL_K, "new": "        EvalRates(k, y_cur, udata);"},
+        {"file": FEX, "old": "    int gs   = blockDim.x * gridDim.x;\n\n    for (int cur = tidx; cur < nsystem; cur += gs) {\n        int yistart            = cur * NEQUATIONS;\n        realtype *y_cur        = y + yistart;\n        NaunetData *udata",
+         "new": "    int gs   = blockDim.x * gridDim.x;\n    realtype k[NREACTIONS];\n    memset(k, 0, sizeof(k));\n\n    for (int cur = tidx; cur < nsystem; cur += gs) {\n        int yistart            = cur * NEQUATIONS;\n        realtype *y_cur        = y + yistart;\n        NaunetData *udata"}], "rules": ["R2"]},
+]
+BENIGN += [
+    {"name": "paste-loop-over-set-alias", "file": RATES, "old": _J_LOOP, "new": '    {% set eqns = ode.rateeqns %}\n    {% for assign in eqns -%}\n        {{ assign | stmwrap(80, 8) }}\n        {{ "" }}\n    {% endfor %}\n'},
+    {"name": "paste-loop-by-index", "file": RATES, "old": _J_LOOP, "new": '    {% for i in range(ode.rateeqns | length) -%}\n        {{ ode.rateeqns[i] | stmwrap(80, 8) }}\n        {{ "" }}\n    {% endfor %}\n'},
+    {"name": "paste-loop-by-loop-index", "file": RATES, "old": _J_LOOP, "new": '    {% for assign in ode.rateeqns -%}\n        {{ ode.rateeqns[loop.index - 1] | stmwrap(80, 8) }}\n        {{ "" }}\n    {% endfor %}\n'},
+    {"name": "paste-loop-in-macro", "file": RATES, "old": _J_LOOP, "new": '    {% macro paste(eqns) %}{% for assign in eqns -%}\n        {{ assign | stmwrap(80, 8) }}\n        {{ "" }}\n    {% endfor %}{% endmacro %}\n    {{ paste(ode.rateeqns) }}\n'},
+    {"name": "fex-k-value-initialised", "file": FEX, "old": _FEX_K, "new": "    realtype k[NREACTIONS] = {};\n    EvalRates(k, y, u_data);"},
+    {"name": "fex-k-memset", "file": FEX, "old": _FEX_K, "new": "    realtype k[NREACTIONS];\n    memset(k, 0, sizeof(k));\n    EvalRates(k, y, u_data);"},
+    {"name": "kernel-k-fill-in-loop", "file": FEX, "old": _KERNEL_K, "new": "        realtype k[NREACTIONS];\n        std::fill(k, k + NREACTIONS, 0.0);\n        EvalRates(k, y_cur, udata);"},
+]
+# ---- wave 2: other constructions of the guard list
+_TR = '        tranges = [\n            "".join([lt, " && " if lt and ut else "", ut])\n            for lt, ut in zip(ltranges, utranges)\n        ]\n'
+_WINDOW_HELPER = ('    @staticmethod\n    def _window(r):\n        lt = f"Tgas>={r.temp_min}" if r.temp_min > 0 else ""\n        ut = f"Tgas<{r.temp_max}" if r.temp_max > 0 else ""\n'
+                  '        return "".join([lt, " && " if lt and ut else "", ut])\n\n    def _assign_rates(\n')
+
+
+def _bounds_pairs(lo_test="lo > 0", hi_fmt="Tgas<{hi}"):
+    return ('        bounds = [(r.temp_min, r.temp_max) for r in reactions]\n        tranges = [\n            "".join([f"Tgas>={lo}" if ' + lo_test + ' else "", " && " if lo > 0 and hi > 0 else "", f"' + hi_fmt + '" if hi > 0 else ""])\n'
+            '            for lo, hi in bounds\n        ]\n')
+
+
+MUTANTS += [
+    {"name": "bounds-pairs-presence-ge-zero", "file": T, "old": "        " + _LT + "\n        " + _UT + "\n" + _TR, "new": _bounds_pairs(lo_test="lo >= 0"), "rules": ["R1"]},
+    {"name": "bounds-pairs-upper-inclusive", "file": T, "old": "        " + _LT + "\n        " + _UT + "\n" + _TR, "new": _bounds_pairs(hi_fmt="Tgas<={hi}"), "rules": ["R1"]},
+    {"name": "window-helper-mapped-over-sorted", "edits": [{"file": T, "old": "    def _assign_rates(\n", "new": _WINDOW_HELPER},
+                                                           {"file": T, "old": "        " + _LT + "\n        " + _UT + "\n" + _TR, "new": "        tranges = list(map(self._window, sorted(reactions, key=lambda x: x.temp_min)))\n"}], "rules": ["R1"]},
+]
+BENIGN += [
+    {"name": "bounds-as-pairs-first", "file": T, "old": "        " + _LT + "\n        " + _UT + "\n" + _TR, "new": _bounds_pairs()},
+    {"name": "window-helper-per-reaction-mapped", "edits": [{"file": T, "old": "    def _assign_rates(\n", "new": _WINDOW_HELPER},
+                                                            {"file": T, "old": "        " + _LT + "\n        " + _UT + "\n" + _TR, "new": "        tranges = list(map(self._window, reactions))\n"}]},
+    {"name": "guard-joined-through-filtering-generator", "file": T, "old": "        " + _LT + "\n        " + _UT + "\n" + _TR,
+     "new": '        tranges = [\n            " && ".join(c for c in (f"Tgas>={r.temp_min}" if r.temp_min > 0 else "", f"Tgas<{r.temp_max}" if r.temp_max > 0 else "") if c)\n            for r in reactions\n        ]\n'},
+]
+# ---- wave 2: the KROME keyword / field pairing
+_K_ZIP = '            for key, value in zip(kwords, react_string.split(",")):\n'
+MUTANTS += [
+    {"name": "krome-columns-by-index-field-one-late", "file": KROME, "old": _K_ZIP,
+     "new": '            values = react_string.split(",")\n            for i in range(min(len(kwords), len(values)) - 1):\n                key, value = kwords[i], values[i + 1]\n', "rules": ["R4"]},
+]
+BENIGN += [
+    {"name": "krome-columns-by-index", "file": KROME, "old": _K_ZIP,
+     "new": '            values = react_string.split(",")\n            for i in range(min(len(kwords), len(values))):\n                key, value = kwords[i], values[i]\n'},
+    {"name": "krome-columns-enumerate-keywords", "file": KROME, "old": _K_ZIP,
+     "new": '            values = react_string.split(",")\n            for i, key in enumerate(kwords[: len(values)]):\n                value = values[i]\n'},
+    {"name": "krome-limit-helper-returning-none", "edits": [
+        {"file": KROME, "old": _K_CLS, "new": '    @staticmethod\n    def _limit(text):\n        if text.upper() in ("N", "NONE", "N/A", "NO", ""):\n            return None\n'
+         '        for opstr in ("<", ">", ".LE.", ".GE.", ".LT.", ".GT."):\n            text = text.replace(opstr, "")\n        return float(text.replace("d", "e"))\n\n' + _K_CLS},
+        {"file": KROME, "old": _K_ARMS_OLD, "new": '                elif key == "tmin":\n                    limit = self._limit(value)\n                    if limit is not None:\n                        self.temp_min = limit\n'
+         '                elif key == "tmax":\n                    limit = self._limit(value)\n                    if limit is not None:\n                        self.temp_max = limit\n'}]},
+]
+# ---- wave 2: other spellings of the statement text
+
+
+def _stmt_loop(body):
+    return '        rateassign = []\n        for ridx, (trange, rateexpr) in enumerate(zip(tranges, rateexprs)):\n' + body + '            rateassign.append(assign)\n'
+
+
+MUTANTS += [
+    {"name": "percent-format-guard-not-enclosing", "file": T, "old": _STMT_COMP,
+     "new": _stmt_loop('            assign = "%s[%d] = %s;" % (rate_sym, ridx, rateexpr)\n            if trange:\n                assign = "if (%s) {\\n}\\n%s" % (trange, assign)\n'), "rules": ["R1"]},
+]
+BENIGN += [
+    {"name": "statement-by-percent-format", "file": T, "old": _STMT_COMP,
+     "new": _stmt_loop('            assign = "%s[%d] = %s;" % (rate_sym, ridx, rateexpr)\n            if trange:\n                assign = "if (%s) {\\n%s\\n}" % (trange, assign)\n')},
+    {"name": "statement-by-concatenation-with-str", "file": T, "old": _STMT_COMP,
+     "new": _stmt_loop('            assign = rate_sym + "[" + str(ridx) + "] = " + rateexpr + ";"\n            if trange:\n                assign = "\\n".join(("if (" + trange + ") {", assign, "}"))\n')},
+    {"name": "statement-lines-wrapped-in-list", "file": T, "old": _STMT_COMP,
+     "new": _stmt_loop('            lines = [f"{rate_sym}[{ridx}] = {rateexpr};"]\n            if trange:\n                lines = [f"if ({trange}) {{", *lines, "}"]\n            assign = "\\n".join(lines)\n')},
+]
+BENIGN += [
+    {"name": "pairs-list-walked-by-index", "file": T, "old": _STMT_COMP,
+     "new": '        pairs = list(zip(tranges, rateexprs))\n        rateassign = []\n        for ridx in range(len(pairs)):\n            trange, rateexpr = pairs[ridx]\n'
+            '            stmt = f"{rate_sym}[{ridx}] = {rateexpr};"\n            rateassign.append(f"if ({trange}) {{\\n{stmt}\\n}}" if trange else stmt)\n'},
 ]
